@@ -163,7 +163,7 @@ def execute(scn, L):
         out.probe('block_size_knob_unavailable')
 
     fdig = pipe.scn_digest(intact.hex())
-    out.case_key = fdig
+    out.case_key = pipe.scn_digest([fdig, scn.get('configs')])
     seen = set()
     want = [R.public(r) for r in ref]
 
